@@ -17,7 +17,11 @@ Report == LET r == Recs[i]
                      edges |-> {<<e[1], e[2]>> : e \in Rng(r.edges)}]
           IN /\ Bump(1) /\ (~WellFormed(tb, r.drop) => Bump(2))
              /\ ((ImportOK(tb, r.kind, r.drop, rs)
-                  /\ ((r.tidcol = 1 /\ r.err = "ok") => {<<n[1], n[2]>> : n \in Rng(r.tids)} = ExpTids(tb, r.kind)))
+                  /\ ((r.tidcol = 1 /\ r.err = "ok") => {<<n[1], n[2]>> : n \in Rng(r.tids)} = ExpTids(tb, r.kind))
+                  \* a consistent source lineage column is a mapped property like any other ...
+                  /\ ((r.lincol = 1 /\ r.err = "ok") => {<<n[1], n[2]>> : n \in Rng(r.lids)} = ExpLids(tb, r.kind))
+                  \* ... and an inconsistent one never survives into the constructed solution (C05 after construction)
+                  /\ ((r.lincol # 0 /\ r.err = "ok") => LidsOK({<<n[1], n[2]>> : n \in Rng(r.lids)}, rs.edges)))
                  \/ PrintT(<<"FAIL", "C12", i>>))
 Post == PrintT(<<"COUNTS", <<TLCGet(1), TLCGet(2)>>>>)
 =============================================================================
